@@ -28,6 +28,18 @@ nan          NaN exactly for positions with a coordinate < second node or
 reciprocity  two emg3d.solve runs with point source and point receiver
              exchanged (electric-electric, magnetic-magnetic).  See
              `case_reciprocity` for the derivation of the two tests.
+
+Input dimensions added after the blind-spot audit (all drawn in the spec; a
+spec without the key behaves as before; each has an ENABLE_* switch):
+field amplitude 10^[-30,30] and the all-zero field; float32/complex64 fields;
+UTM-like coordinates; receiver tuples mixing scalars and arrays, length-1
+arrays / lists, integer-typed numbers; get_magnetic_field called twice and
+with Model.mu_r re-assigned in between; source strength (real, negative,
+complex) and the Source.get_field route; the source vector with the other
+frequency argument (electric: f and Laplace, magnetic: None); point sources
+in the outermost cells; default interpolation method.  The checker's own
+functional is computed from copies taken before emg3d runs, and all inputs
+(field, model, grid) must be bitwise unchanged afterwards.
 """
 import contextlib
 import io
@@ -63,7 +75,20 @@ RULE = ("Stretched/random/uniform grids with 3..8 cells per direction; "
         "one receiver in the NaN region; reciprocity = both solves report "
         "success, the points/orientations differ and the derived bound is "
         "below 1e-2*|response|.  Distinct by (grid seed, shape, point specs, "
-        "field seed).")
+        "field seed).  "
+        "Added dimensions (transposition and nan sub-checks): field amplitude "
+        "10^u, u in {0, [-30,30]} and the all-zero field (must sample to "
+        "exactly 0); float32/complex64 fields (electric); x/y origin shifted "
+        "by {0, 5e5, 6.5e6} (UTM-like); integer-valued positions passed as "
+        "int; receiver argument in {scalar tuple, tuple of arrays (also of "
+        "length 1), tuple with scalar y,z and/or scalar angles and array x, "
+        "Rx, list of Rx (also of length 1)}; magnetic: get_magnetic_field "
+        "called {once, twice (bitwise equal), again after model.mu_r = new "
+        "values}; source strength in {1, -1, +-10^[-6,6], complex (frequency "
+        "domain)} through get_source_field and Source.get_field; source "
+        "vector with frequency None and with f / Laplace s; nan: point "
+        "sources at the NaN positions inside the grid (finite, components "
+        "sum to the rotation factors), method omitted (default).")
 ASSUMPTIONS = [
     "TensorMesh.nodes_* / cell_centers_* (discretize) are the grid geometry; "
     "the checker's interpolation weights are computed from them with its own "
@@ -83,6 +108,25 @@ ASSUMPTIONS = [
     "point source is documented as not implemented for permeability",
     "reciprocity (b) uses the solver's reported success and tolerance; that "
     "success certifies ||s - A e|| <= tol ||s|| is property C01",
+    "the code under test must not modify its inputs: field, model "
+    "properties and grid.cell_volumes are compared bitwise with copies taken "
+    "before the calls, and the checker's own functional uses those copies",
+    "single-precision fields (dtype taken from the data when no frequency is "
+    "given): tolerance 1e3*eps(float32) relative to the sum of absolute "
+    "terms; amplitudes kept within 1e-24..1e24",
+    "source strength: get_source_field(Tx(coo, c)) = c * get_source_field("
+    "Tx(coo, 1)) elementwise to 16 eps (+ underflow floor), and "
+    "Tx.get_field(grid, f) bitwise equal to get_source_field(grid, Tx, f); "
+    "complex strength only where the source field is complex (frequency "
+    "domain, or magnetic vector without frequency): emg3d raises a casting "
+    "error otherwise",
+    "mixed tuples keep azimuth and elevation both scalar or both arrays "
+    "(electrodes.rotation does not accept one of each); Python lists of "
+    "coordinates are not generated (read as points, not as the tuple form)",
+    "the frequency-dependent electric source vector is divided by -s mu0 "
+    "(docstring of get_source_field) before comparison; 16 eps extra",
+    "point sources in the outermost cells: only existence, finiteness and "
+    "the component sums (partition of unity) are demanded, not the weights",
 ]
 SHARDS = {'quick': 1, 'thorough': 16}
 
@@ -932,13 +976,16 @@ class MagFunctional:
         return g, ga, gh
 
 
-def check_hfield(name, hfield, efield, grid):
+def check_hfield(name, hfield, efield, grid, meta=False):
     """get_magnetic_field returns "the magnetic field corresponding to the
-    provided electric field": a face field on the same grid with the same
-    Laplace parameter (frequency AND its sign = domain)."""
+    provided electric field": a face field and (meta=True; decided after the
+    values, so that a wrong value is reported as such) on the same grid with
+    the same Laplace parameter (frequency AND its sign = domain)."""
     if hfield.electric or hfield.field.size != grid.n_faces:
         raise Violation(f"{name}:hfield_not_on_faces",
                         "get_magnetic_field did not return a face field")
+    if not meta:
+        return
     if hfield._frequency != efield._frequency or hfield.grid != efield.grid:
         raise Violation(
             f"{name}:hfield_metadata",
@@ -1045,6 +1092,7 @@ def case_magnetic(spec, rec):
                               rcls != 'axis_aligned'):
             nontriv = True
     require_unchanged('magnetic', 'efield', efield.field, e_raw)
+    check_hfield('magnetic', hfield, efield, grid, meta=True)
     rec.cls(f"field={fspec['kind']}", f"laplace={fs['laplace']}",
             f"mur={spec['mm']['mur']}", f"form={form}",
             f"nrec={len(pts)}", f"widths={spec['grid']['kind']}",
